@@ -3,9 +3,20 @@
 package main
 
 import (
+	"context"
 	"fmt"
+	"os"
+	"path/filepath"
 	"strconv"
 	"strings"
+	"sync"
+	"time"
+
+	"github.com/google/mtail/internal/logline"
+	"github.com/google/mtail/internal/metrics"
+	"github.com/google/mtail/internal/metrics/datum"
+	"github.com/google/mtail/internal/runtime"
+	"github.com/google/mtail/internal/runtime/vm"
 )
 
 // C06 — programs are isolated from each other.
@@ -45,7 +56,99 @@ func seriesOfProg(scrape, prog string) []string {
 	return out
 }
 
+// c06Conc: program a counts lines; program b is reloaded over and over (two texts in turn) while
+// N lines flow, every VM slowed a little at the start of a line so that the dispatcher is usually
+// in the middle of handing a line out when a reload arrives.  Whatever happens to b, a processes
+// every line exactly once.  (A dispatcher that sends on a channel a reload has closed takes the
+// process down; the engine reports that as this case's crash.)
+func c06Conc(n, reloads int) (bool, string) {
+	dir, err := os.MkdirTemp("", "c06conc")
+	if err != nil {
+		return true, "skip"
+	}
+	defer os.RemoveAll(dir)
+	lines := make(chan *logline.LogLine)
+	store := metrics.NewStore()
+	var wg sync.WaitGroup
+	vm.VerifLineHook = func(_ *vm.VM, _ *logline.LogLine) { time.Sleep(50 * time.Microsecond) }
+	defer func() { vm.VerifLineHook = nil }()
+	rt, err := runtime.New(lines, &wg, dir, store)
+	if err != nil {
+		return false, "runtime.New: " + err.Error()
+	}
+	write := func(name, src string) { _ = os.WriteFile(filepath.Join(dir, name), []byte(src), 0o644) }
+	write("a.mtail", "counter la\n/^/ {\n  la++\n}\n")
+	write("c.mtail", "counter lc\n/^/ {\n  lc++\n}\n")
+	bsrc := func(k int) string { return fmt.Sprintf("counter lb\n/^/ {\n  lb++\n}\n# text %d\n", k%2) }
+	write("b.mtail", bsrc(0))
+	if err := rt.LoadAllPrograms(); err != nil {
+		return false, "load: " + err.Error()
+	}
+	sent := make(chan struct{})
+	go func() {
+		defer close(sent)
+		for i := 0; i < n; i++ {
+			lines <- logline.New(context.Background(), "log", strconv.Itoa(i))
+		}
+	}()
+	for k := 1; k <= reloads; k++ {
+		write("b.mtail", bsrc(k))
+		_ = rt.LoadAllPrograms()
+		select {
+		case <-sent:
+			k = reloads
+		default:
+		}
+	}
+	select {
+	case <-sent:
+	case <-time.After(60 * time.Second):
+		return false, "the lines were not all taken within 60 s"
+	}
+	count := func(name string) int64 {
+		var v int64 = -1
+		_ = store.Range(func(m *metrics.Metric) error {
+			if m.Name == name && len(m.LabelValues) > 0 {
+				v = datum.GetInt(m.LabelValues[0].Value)
+			}
+			return nil
+		})
+		return v
+	}
+	deadline := time.Now().Add(20 * time.Second)
+	for (count("la") < int64(n) || count("lc") < int64(n)) && time.Now().Before(deadline) {
+		time.Sleep(time.Millisecond)
+	}
+	time.Sleep(5 * time.Millisecond)
+	la, lc := count("la"), count("lc")
+	close(lines)
+	done := make(chan struct{})
+	go func() { wg.Wait(); close(done) }()
+	select {
+	case <-done:
+	case <-time.After(3 * time.Second):
+	}
+	if la != int64(n) || lc != int64(n) {
+		return false, fmt.Sprintf("%d lines sent while program b was reloaded: program a counted %d, program c %d", n, la, lc)
+	}
+	return true, ""
+}
+
 func c06Run(r *runCtx, id string, f []string) {
+	if f[0] == "conc" {
+		n, _ := strconv.Atoi(f[1])
+		k, _ := strconv.Atoi(f[2])
+		ok, note := c06Conc(n, k)
+		r.stat("conc")
+		r.obs(id, "-")
+		if !ok {
+			r.replay(id, f...)
+			r.fail(id, "reload-disturbs-other-program", "%s", note)
+		} else {
+			r.ok(id)
+		}
+		return
+	}
 	ops := strings.Split(f[2], ";")
 	multi, dumps, err := rtRunHistory(ops, "")
 	if err != nil {
@@ -188,6 +291,12 @@ func init() {
 		gen: func(g *genCtx) {
 			cat := rtEncodeCatalogue()
 			emit := func(ops []string) { g.emit("rt", cat, strings.Join(ops, ";")) }
+			// lines flowing while another program is reloaded
+			g.emit("conc", "400", "60")
+			g.emit("conc", "1500", "250")
+			if g.thorough() {
+				g.emit("conc", "6000", "1000")
+			}
 			vers := []int{0, 3, 4, 6, 7, 9, 11, 17}
 			files := []string{"a.mtail", "b.mtail", "c.mtail", "d.mtail"}
 			// all ordered pairs of versions for two programs, both load orders
